@@ -3,7 +3,7 @@ run on exact-fragment models x names modes x .col/.row file variants x acceptanc
 cvt:writegraph; this module decides C19, checks/C20/check.py decides C20 from the same kind of run."""
 import itertools, json, os, sys, collections, shutil
 from concurrent.futures import ThreadPoolExecutor
-import vcheck, vbuild, vdriverlib, flatlib, flatcheck, flatgen, nlmodel
+import vcheck, vbuild, vdriverlib, flatlib, flatcheck, flatgen, nlmodel, graphlib
 from nlmodel import Model, INF
 
 PID = 'C19'
@@ -45,11 +45,18 @@ def name_sets(m):
     yield ('brackets', ['X[%d]' % (i + 1) for i in range(nv)], ["C['a b',%d]" % (i + 1) for i in range(nc)] + ['Total'] * no, '\n')
 
 
+def chain_of(name, nl_names):
+    best = ''
+    for b in nl_names:
+        if b and name.startswith(b) and len(b) > len(best): best = b
+    return "'%s'" % name[len(best):]
+
+
 def generic_var(i, nvars):
     return '_svar[%d]' % (i + 1)
 
 
-def judge(m, run, mode, label, col, row):
+def judge(m, run, mode, label, col, row, grecs=None):
     """returns list of (signature, detail)"""
     out = []
     d = run['dump']
@@ -62,17 +69,26 @@ def judge(m, run, mode, label, col, row):
     onames = [o.get('name', '') for o in d['objs'] if o]
     # 1. completeness
     for i, n in enumerate(vnames):
-        if not n: out.append(('C19 delivered variable without a name (mode %d, files %s)' % (mode, label), {'var': i})); break
+        if not n: out.append(('C19 delivered variable without a name (%s)' % ('original' if i < norig else 'auxiliary'), {'var': i, 'mode': mode, 'files': label})); break
+    tmap = d.get('types', {}); prov = graphlib.provenance(grecs) if grecs else {}
+    fin = graphlib.final_records(grecs) if grecs else {}
+    seen_t = collections.Counter()
     for i, n in enumerate(cnames):
-        if not n: out.append(('C19 delivered constraint without a name (mode %d, files %s)' % (mode, label), {'con': i, 'type': d['cons'][i]['type']})); break
+        short = tmap.get(d['cons'][i]['type'], d['cons'][i]['type']); k = seen_t[short]; seen_t[short] += 1
+        if not n:
+            src = '?'
+            if short in fin and k < len(fin[short]):
+                src = ','.join(sorted(prov.get((short, fin[short][k].get('index')), []))) or 'no-link'
+            out.append(('C19 delivered constraint without a name: type %s created from [%s]' % (short, src),
+                        {'con': i, 'type': d['cons'][i]['type'], 'mode': mode, 'files': label})); break
     for i, n in enumerate(onames):
-        if not n: out.append(('C19 delivered objective without a name (mode %d, files %s)' % (mode, label), {'obj': i})); break
+        if not n: out.append(('C19 delivered objective without a name', {'obj': i, 'mode': mode, 'files': label})); break
     # 2. original items keep file names / documented generic names
     use_files = mode <= 2
     for j in range(min(norig, len(vnames))):
         exp = col[j] if (use_files and col is not None and j < len(col)) else '_svar[%d]' % (j + 1)
         if vnames[j] != exp:
-            out.append(('C19 original variable name not faithful (mode %d, files %s)' % (mode, label),
+            out.append(('C19 original variable name not faithful (names mode %d, files %s)' % (mode, label),
                         {'index': j, 'got': vnames[j], 'expected': exp})); break
     for k, o in enumerate(d['objs']):
         if not o: continue
@@ -92,7 +108,7 @@ def judge(m, run, mode, label, col, row):
         nl_names.append(row[nc + k] if (use_files and row is not None and nc + k < len(row)) else '_sobj[%d]' % (k + 1))
     for n in vnames[norig:] + cnames:
         if n and not any(n.startswith(b) for b in nl_names if b):
-            out.append(('C19 derived name does not start with the name of an NL item (mode %d, files %s)' % (mode, label),
+            out.append(('C19 derived name does not start with the name of an NL item (files %s)' % (label),
                         {'name': n, 'nl_names': nl_names})); break
     # 4. uniqueness
     seen = {}
@@ -100,13 +116,15 @@ def judge(m, run, mode, label, col, row):
         if n and n in seen:
             kind = 'original/derived' if (seen[n] < norig) != (i < norig) else 'derived/derived' if i >= norig else 'original/original'
             if kind == 'original/original' and label in ('brackets',): pass
-            out.append(('C19 two delivered variables share a name [%s] (files %s)' % (kind, label), {'name': n, 'indexes': [seen[n], i], 'mode': mode})); break
+            out.append(('C19 two delivered variables share a name [%s]: suffix chain %s%s' % (kind, chain_of(n, nl_names), ' (look-alike file names)' if label == 'lookalike' else ''),
+                        {'name': n, 'indexes': [seen[n], i], 'mode': mode, 'files': label})); break
         seen[n] = i
     seen = {}
     for i, n in enumerate(cnames):
         if n and n in seen:
-            out.append(('C19 two delivered constraints share a name (files %s)' % label,
-                        {'name': n, 'indexes': [seen[n], i], 'types': [d['cons'][seen[n]]['type'], d['cons'][i]['type']], 'mode': mode})); break
+            ts = sorted([tmap.get(d['cons'][seen[n]]['type'], '?'), tmap.get(d['cons'][i]['type'], '?')])
+            out.append(('C19 two delivered constraints share a name: suffix chain %s types %s%s' % (chain_of(n, nl_names), '/'.join(ts), ' (look-alike file names)' if label == 'lookalike' else ''),
+                        {'name': n, 'indexes': [seen[n], i], 'mode': mode, 'files': label})); break
         seen[n] = i
     return out
 
@@ -119,7 +137,10 @@ def one(job):
     gfile = os.path.join(wd, 'g.jsonl')
     run = vdriverlib.run(binary, wd, nl_text=m.nl(), script={'acc': ACC[accname], 'code': 0},
                          env_opts={'vdriver_options': 'cvt:names=%d cvt:writegraph=%s' % (mode, gfile)}, col=colt, row=rowt)
-    v = judge(m, run, mode, label, col, row)
+    grecs = None
+    try: grecs, _ = graphlib.parse(open(gfile, errors='replace').read())
+    except OSError: pass
+    v = judge(m, run, mode, label, col, row, grecs)
     info = {'rc': run['rc'], 'has_dump': run['dump'] is not None, 'err': run['err'][-300:] if run['rc'] != 0 else ''}
     cls = '%s|mode%d|%s|%s' % (accname, mode, label, 'named' if run['dump'] and run['dump']['vars'] and run['dump']['vars'][0][3] else 'unnamed')
     shutil.rmtree(wd, ignore_errors=True)
